@@ -347,6 +347,9 @@ pub struct SchedCfg {
     /// (link, rename, unlink, utimens) the running participant is preempted
     /// with this probability (permille) instead of 1000 - stay
     pub hot_switch: u64,
+    /// A long stall of everybody: when the global step counter reaches the
+    /// first value the clock jumps ahead by the second (nanoseconds).
+    pub jump_at: Option<(u64, i64)>,
 }
 
 impl Default for SchedCfg {
@@ -358,6 +361,7 @@ impl Default for SchedCfg {
             crash_at: None,
             max_steps: 200_000,
             hot_switch: 0,
+            jump_at: None,
         }
     }
 }
@@ -941,6 +945,11 @@ impl Sim {
         st.step += 1;
         st.progress += 1;
         Self::advance_clock(&mut st);
+        if let Some((at, ns)) = st.sched.jump_at {
+            if st.step == at {
+                st.fs.now += ns;
+            }
+        }
 
         // fault?
         let mut injected: Option<Errno> = None;
